@@ -191,7 +191,13 @@ impl<I: InputSource> Decoder<I> {
 impl DecodeFrom for String {
     fn decode_from(decoder: &mut Decoder<impl InputSource>) -> Result<Self> {
         // Decode how many bytes are in this string, and attempt to allocate a vec with the necessary capacity.
-        let length = decoder.decode_varuint()?;
+        let length: usize = decoder.decode_varuint()?;
+        // The buffer must hold at least 'length'-many bytes; check this before allocating anything.
+        let remaining = decoder.remaining();
+        if remaining < length {
+            let error = crate::ErrorKind::UnexpectedEob { requested: length, remaining };
+            return Err(error.into());
+        }
         let mut vector = Vec::new();
         vector.try_reserve_exact(length)?;
 
@@ -217,9 +223,10 @@ where
     /// TODO
     fn decode_from(decoder: &mut Decoder<impl InputSource>) -> Result<Self> {
         // Decode how many elements are in this sequence, and attempt to allocate a vec with the necessary capacity.
-        let length = decoder.decode_varuint()?;
+        let length: usize = decoder.decode_varuint()?;
         let mut vector = Vec::new();
-        vector.try_reserve_exact(length)?;
+        // Every element takes at least one byte, so never reserve more than the buffer could possibly hold.
+        vector.try_reserve_exact(length.min(decoder.remaining()))?;
 
         // Decode each element, and push them into the vector, one by one.
         for _ in 0..length {
@@ -243,9 +250,10 @@ where
     /// TODO
     fn decode_from(decoder: &mut Decoder<impl InputSource>) -> Result<Self> {
         // Decode how many entries are in this dictionary, and attempt to allocate a map with the necessary capacity.
-        let length = decoder.decode_varuint()?;
+        let length: usize = decoder.decode_varuint()?;
         let mut map = HashMap::new();
-        map.try_reserve(length)?;
+        // Every entry takes at least two bytes, so never reserve more than the buffer could possibly hold.
+        map.try_reserve(length.min(decoder.remaining()))?;
 
         // Decode 'length'-many entries into the map.
         decode_dictionary_entries!(map, decoder, length);
